@@ -323,7 +323,8 @@ PROPS["C18"] = {
     "theorems": ["WhatIs.C18.no_map_range", "WhatIs.C18.null_rejected", "WhatIs.C18.numeric_dates_handled", "WhatIs.C18.empty_shown",
                  "WhatIs.C18.tables_ok", "WhatIs.C18.split_three", "WhatIs.C18.jwt_iff", "WhatIs.C18.registered_readback",
                  "WhatIs.C18.alg_readback", "WhatIs.C18.numeric_dates", "WhatIs.C18.date_strings", "WhatIs.C18.date_bound", "WhatIs.C18.date_string_fallback", "WhatIs.C18.absent_not_shown", "WhatIs.C18.header_claims_apart", "WhatIs.C18.order_independent",
-                 "WhatIs.C18.signature_readback"],
+                 "WhatIs.C18.signature_readback", "WhatIs.C18.json_object_readback", "WhatIs.C18.json_members_in_order",
+                 "WhatIs.C18.json_string_readback", "WhatIs.C18.registered_from_text", "WhatIs.C18.numeric_date_from_text"],
     "facts": {"jwt.rangesOverMap": False, "jwt.nullRejected": True, "jwt.numericDates": True, "jwt.emptyShown": True,
               "jwt.paramCount": 17, "jwt.algCount": 12, "jwt.dateBoundLog2": 62, "jwt.dateStringFallback": True},
     "nontrivial": nt_c18,
@@ -332,18 +333,27 @@ PROPS["C18"] = {
             "registered algorithms and unknown ones, signatures of 0..512 bytes, each segment in any of the four base64 conventions; "
             "every registered name alone with string/empty/number/numeric-string/null/array values in header and payload; near-misses "
             "(2 or 4 segments, empty segments, null/array/string/number top level, truncated JSON, invalid base64, surrounding "
-            "whitespace, duplicate names). distinct non-trivial = distinct (#segments, value kinds, first registered names, accepted?)",
-    "design_ref": "DESIGN.md §5 C18",
+            "whitespace, duplicate names). Operation json: 2,070 (thorough 20,000) JSON texts — generated objects, every escape and broken "
+            "escape, surrogates, ill-formed UTF-8, the number grammar and the limits of the exact floor, white space, nesting around the "
+            "library's limit of 10,000, repeated names, data after the value, structural near misses, one-octet substitutions / insertions "
+            "/ deletions at every position — read by the repository's unmarshalObject, by the Lean model Json.doc and by the RFC 8259 "
+            "ground truth. distinct non-trivial = distinct (#segments, value kinds, first registered names, accepted?)",
+    "design_ref": "DESIGN.md §5 C18, §9.12",
     "level_text": "Proof: for ALL inputs and ANY behaviour of the JSON library, the model accepts exactly three dot-separated RFC 4648 "
                   "segments whose first two are JSON objects (null rejected); every registered string-valued parameter present is shown "
                   "with its value, numeric exp/nbf/iat as the denoted UTC second, nothing absent is shown, the result does not depend on "
-                  "map order, and the shown signature decodes back to the raw bytes. Tied to jwt.go by regenerated tables/facts and a "
-                  "differential run with encoding/json as recorded oracle.",
+                  "map order, and the shown signature decodes back to the raw bytes. The JSON reading itself is a concrete Lean model of "
+                  "encoding/json as unmarshalObject uses it (Model/Json.lean), for which H-json is a THEOREM on written objects: the RFC 8259 "
+                  "writer's text of any member list (names and strings over all Unicode scalar values, integers of any size) is read back as "
+                  "exactly those members (json_object_readback, json_members_in_order), so a registered field or an integer NumericDate is "
+                  "shown faithfully from the TEXT of the object (registered_from_text, numeric_date_from_text). Tied to jwt.go by regenerated "
+                  "tables/facts, a differential run with encoding/json as recorded oracle, and the json operation (model vs unmarshalObject "
+                  "vs RFC 8259 ground truth).",
     "level_note": "Trusted: Lean kernel; translator; encoding/json (oracle: harness records the decoded objects); time formatting model "
                   "(shared with C17, read back in the oracle); C14's base64 theorems.",
-    "technique": "Lean 4 proof (filterMap/lookup reasoning over regenerated tables, reuse of C14 accept_iff) + differential correspondence with JSON oracle records",
+    "technique": "Lean 4 proof (filterMap/lookup reasoning over regenerated tables, reuse of C14 accept_iff, induction over the written members for the concrete JSON reader) + differential correspondence (JSON oracle records; json operation against the Lean JSON model)",
     "trusted_base": ["encoding/json: json.Valid (RFC 8259 grammar) and Decoder.UseNumber into map[string]any (oracle record; numbers as exact rationals, floor by math/big)"],
-    "assumptions": ["H-json: duplicate member names and number syntax are resolved by the library"],
+    "assumptions": ["H-json: duplicate member names and number syntax are resolved by the library (a theorem of the concrete model for written objects; explored by the json operation elsewhere: fractions, exponents, nested values, white space, fuel adequacy of the value skipper)"],
 }
 
 def nt_c06(lhs, impl):
